@@ -26,6 +26,8 @@ pub(super) fn spec_digit(w: usize, c: usize, el: &[u8]) -> i64 {
     win + prev - (bit(el, lo + c - 1) << c)
 }
 
+pub(super) const BOOTH_CAP: usize = 24;
+
 pub(super) fn pre(w: usize, c: usize, el: &[u8], cap: usize) -> bool {
     el.len() == 32 && c >= 1 && c <= cap && w <= 256 && w * c <= 256
 }
@@ -35,13 +37,19 @@ pub(super) fn post(r: i32, w: usize, c: usize, el: &[u8]) -> bool {
     r as i64 == d && d <= (1i64 << (c - 1)) && d >= -(1i64 << (c - 1))
 }
 
-#[kani::proof_for_contract(super::get_booth_index)]
+// Harness form of the contract (assume pre / call / assert post).  The attribute form
+// (#[kani::requires/ensures] + proof_for_contract) was tried first and does not terminate within
+// 15 minutes here: Kani's contract instrumentation of the `&[u8]` argument (havoc + write-set
+// tracking) dominates; the pre/postcondition below are the same predicates.
+#[kani::proof]
 #[kani::unwind(34)]
 fn booth_digit_contract() {
     let el: [u8; 32] = kani::any();
     let c: usize = kani::any();
     let w: usize = kani::any();
-    get_booth_index(w, c, &el);
+    kani::assume(pre(w, c, &el, BOOTH_CAP));
+    let r = get_booth_index(w, c, &el);
+    assert!(post(r, w, c, &el));
 }
 
 /// reachability behind the precondition: the extreme corners are inside it
